@@ -192,7 +192,7 @@ def check_c56(ctx):
             cases.append(dict(c, alt=rnd.randrange(1, 1 << 30)))
     ctx.cov["exhaustive"] = True
     ctx.cov["rule"] = ("cases = every request shape TLC enumerates from Doh.tla (method x dns-parameter encoding x content type "
-                       "x body size vs the limit of %d x message validity x client address family and in-memory form x "
+                       "x body size vs the limit of %d x POST framing (Content-Length / chunked) x delivery (complete / ends before the last record / ends one byte early / connection reset) x message validity x client address family and in-memory form x "
                        "RemoteAddr/ClientAddr x EDNS content of the query), canonical plus seeded ids/names/addresses; the "
                        "hand-built query goes through mod_doh.RequestToDnsMsg (+ miekg Pack) and through DnsClient.Fetch to an "
                        "in-harness UDP upstream; the forwarded bytes are parsed by a hand-written DNS parser and compared with "
@@ -205,7 +205,8 @@ def check_c56(ctx):
         "or replaced.",
     ]
     run(ctx, "doh", cases,
-        lambda c: [c["method"], c["enc"], c["ctype"], c["size"], c["msg"], c["cfam"], c["via"], c["edns"], c["alt"] != 0], "C56")
+        lambda c: [c["method"], c["enc"], c["ctype"], c["size"], c["msg"], c["cfam"], c["via"], c["edns"],
+                   c.get("frame"), c.get("deliv"), c["alt"] != 0], "C56")
 
 
 PROPS = {"C46": check_c46, "C55": check_c55, "C56": check_c56}
